@@ -32,7 +32,7 @@ CHECKS = {
          "DESIGN.md §4 C10"),
  "C12": ("abstract interpretation of the statement rewriter on a symbolic AST of every statement kind; hole-coverage path rule; abstract drive of the branch pass over all context nestings",
          "Decides the structural core of 'rejected or preserved, never silently mistranslated': unsupported kinds are rejected on every path; every original part that can contain a yield and still reaches the output is covered by a yield-freeness test answered true on its path (so no Yield can survive as a no-op stub); every nested statement list that reaches the output went through the rewriter's recursion (so nested unsupported constructs were seen); the branch pass keeps/replaces/rejects break/continue/fallthrough/goto exactly per the Go spec's target rule for all context nestings up to depth 3, with balanced context stacks; functions (declarations and literals) are marked as generators only after the signature check; every recover() in the rewriter re-raises what it caught, so a diagnostic always ends the run (RW.RECOVER).",
-         "Relies on go/ast grammar facts (init/post are simple statements, switch bodies hold case clauses); the oracles mustNoYield/containsYield are trusted to mean yield-freeness (their own traversal is checked under C13's guard rule); behaviour of accepted programs is C01-C06.",
+         "Relies on go/ast grammar facts (init/post are simple statements, switch bodies hold case clauses); the oracles mustNoYield/containsYield are trusted to mean yield-freeness (their own traversal is checked under C13's guard rule); behaviour of accepted programs is C01-C06. Also decided: a function returning a type that only spells like the iterator type is not a generator (RW.ITERPRED); Yield / YieldFrom used as a value is rejected (D38 repaired); every recover re-raises.",
          "DESIGN.md §4 C12"),
  "C01": ("decision-table extraction by abstract interpretation (block tables, termination checker vs spec reference on enumerated shapes, branch pass driven over context nestings), lowering-vs-runtime signal agreement, no-loss and template rules on the symbolic rewriting of every statement kind",
          "Whole-program equivalence is not decided. Decided, for every path of the code that implements them: the combine / implicit-Normal / yield-freeness tables of the block abstraction; the break/continue pass against the Go spec's target rule for every nesting of native contexts up to depth 3; the termination checker never over-approximates the spec's 'terminating statements' on ~2000 enumerated shapes; Loop/While/For choice and argument roles; the lowering of every break/continue target agrees with the signal tables extracted from the runtime in the same run; plus the runtime tables of C08.",
@@ -68,7 +68,7 @@ CHECKS = {
          "DESIGN.md §4 C11"),
  "C13": ("resolved enumeration of all Cursor mutator call sites + abstract evaluation of the file-level callbacks over node kinds (edits only under API-membership predicates) + call-graph confinement; eta-reduction table; pass0 in nested closures; branch pass boundary",
          "Decides that bystander code is only touched under a generator / iterator-type / Yield-call predicate, that the one pass rewriting arbitrary closures (eta reduction) keeps every closure whose reduction changes meaning, that returns/initialisers/branches inside ordinary closures nested in generators are left alone, and that no declaration is added.",
-         "Doc comments in directive positions (file, declaration, spec) are decided to survive the installed comment list (collected per node type, traversal not pruned, merged in source order); loss of free-floating and line comments is behaviour-neutral and not judged; go-imports trusted.",
+         "Doc comments in directive positions (file, declaration, spec) are decided to survive the installed comment list (collected per node type, traversal not pruned, merged in source order); loss of free-floating and line comments is behaviour-neutral and not judged; go-imports trusted. Also decided: a bystander type that only spells like co.Iter is left alone (RW.ITERPRED); a labelled range loop in an ordinary closure survives the range pass (D36 repaired); a processed file is chosen for writing before any optimisation pass has run (D37 repaired); memoised verdicts are keyed by what determines them.",
          "DESIGN.md §4 C13"),
  "C15": ("resolved-program scans (map ranges, nondeterminism sources), per-file reset path rule on rewriteFile, counter lifetime analysis of gensym, event-order rule on the intermediate directory, SSA backward slice of memo tables (key determines value)",
          "Decides the absence of every source of run-to-run or context dependence in the output path: no map iteration, no time/rand/pid/env, per-file state re-initialised before the first pass, unique-name counter advanced once per temporary and alive for exactly one file, intermediate directory emptied before use and removed afterwards, each stage loads the directory the previous one wrote and removes nothing else, iterator temporaries named through gensym, no table outliving a call filled with a value its key does not determine (OPT.MEMO), no stage loaded with type errors suppressed (DET.PARTIALTYPES: recorded finding D31).",
@@ -76,7 +76,7 @@ CHECKS = {
          "DESIGN.md §4 C15"),
  "C16": ("abstract interpretation of GoGen / cogen with constant folding of string functions (file filter and both printers evaluated on concrete names), header constant checked with go/build/constraint, event-order rule on the intermediate directory",
          "Decides necessary conditions of 'exactly the derived files': header well-formed and generated-code convention; loader tag = negated header tag; exactly *_co.go / *_co_test.go processed; each is written exactly to the sibling with the suffix removed (also for base names and directories containing the marker), through an intermediate directory that is emptied before and removed after; files not using the runtime are not written; cogen only runs in go:generate mode.",
-         "GoGen is evaluated with the default options and with WithBuildTag/WithFileSuffix. That the package builds and its tests pass afterwards is the correctness of the whole compiler and is answered by the checks of C01-C07 and C11-C13, not by this one; byte identity of a second run quantifies over file-system states and toolchain behaviour and is not decided.",
+         "GoGen is evaluated with the default options and with WithBuildTag/WithFileSuffix. That the package builds and its tests pass afterwards is the correctness of the whole compiler and is answered by the checks of C01-C07 and C11-C13, not by this one; byte identity of a second run quantifies over file-system states and toolchain behaviour and is not decided. A derived file is written for every processed file: the import of the runtime is added per file, and which files use it is decided before the optimiser runs (D37 repaired).",
          "DESIGN.md §4 C16"),
 }
 
